@@ -73,6 +73,29 @@ def _field_aliases(ctx, cls):
     return out
 
 
+def _instance_owned(ctx, cls, name, f, path, e):
+    """`self.<name>` denotes the instance's own object (not the class-level default of the same name): the constructor assigns it on
+    every path, and when the mutation is in the constructor itself, before the mutation."""
+    init = cls.find_method("__init__")
+    if init is None:
+        return False
+    me = ("param", init.params[0]) if init.params else None
+    for q in ctx.A.paths(init).paths:
+        if q.kind == "raise":
+            continue
+        if not any(x.kind == "store_attr" and x.a == me and x.b == name and not ls for x, ls in q.stores()):
+            return False
+    if f is init:
+        seen_store = False
+        for x, ls in walk_effects(path.effects):
+            if x is e:
+                return seen_store
+            if x.kind == "store_attr" and x.a == me and x.b == name and not ls:
+                seen_store = True
+        return False
+    return True
+
+
 def global_state_rule(ctx, rep, cl, functions):
     """No module-level / class-level object is mutated by code in `functions`."""
     p = ctx.p
@@ -135,7 +158,7 @@ def global_state_rule(ctx, rep, cl, functions):
                         cls = r[1]
                 if cls is not None:
                     owner, expr = cls.find_assign(root[2])
-                    if owner is not None:
+                    if owner is not None and not (base[0] == "param" and _instance_owned(ctx, cls, root[2], f, path, e)):
                         name = "%s.%s" % (owner.name, root[2])
             if name is not None:
                 n += 1
@@ -460,6 +483,8 @@ def c13(ctx, rep):
     rep.ob("C13.licensed-salt-generation", "FileAnonymizer.__init__", licensed >= 1, "the salt generation under `salt is None` was found (%d licensed sites)" % licensed, "", nontrivial=False)
     unordered_rule(ctx, rep, "C13", fns)
     global_state_rule(ctx, rep, "C13", fns)
+    from .checks_pipe import line_loop_rules as _llr
+    _llr(ctx, rep, "C13")  # every stage is called in the line loop with the object built for this run (its salt is the reported salt)
     # constructors and the file-level entry point leave the objects they are given alone
     argument_mutation_rule(ctx, rep, "C13", [f for f in p.all_functions() if (f.cls is not None and f.name == "__init__") or (f.cls is None and f.name == "anonymize_files")])
     # class-level mutable attributes that instances share (even if only read today they are one edit from shared state)
@@ -591,6 +616,10 @@ def nondet_rule_generic(ctx, rep, cl, functions):
 # ----------------------------------------------------------------------
 # C14
 # ----------------------------------------------------------------------
+_LOGRECORD_ATTRS = {"name", "msg", "args", "levelname", "levelno", "pathname", "filename", "module", "exc_info", "exc_text", "stack_info", "lineno", "funcName", "created", "msecs",
+                    "relativeCreated", "thread", "threadName", "processName", "process", "taskName", "message", "asctime"}
+
+
 def c14(ctx, rep):
     p, A, G, folder = ctx.p, ctx.A, ctx.G, ctx.folder
     rep.explanation = (
@@ -607,6 +636,24 @@ def c14(ctx, rep):
     fns = [f for f in perline_closure(ctx) if f.qualname not in ctx.helpers]  # helpers are analysed inlined into their callers
     names = {f.name for f in fns}
     rep.stat("perline_functions", len(fns))
+    # K8 logging calls: `extra=` may not name an attribute every LogRecord already has (makeRecord raises KeyError, and only when the level is enabled)
+    n_log = 0
+    for f in fns + [p.find_function("anonymize_files"), p.find_function("FileAnonymizer.anonymize_file")]:
+        for n in ast.walk(f.gen_orig or f.node):
+            if isinstance(n, ast.Call) and isinstance(n.func, ast.Attribute) and n.func.attr in ("debug", "info", "warning", "warn", "error", "exception", "critical", "log"):
+                n_log += 1
+                for k in n.keywords:
+                    if k.arg == "extra" or k.arg is None:
+                        keys = None
+                        if k.arg == "extra" and isinstance(k.value, ast.Dict) and all(isinstance(x, ast.Constant) and isinstance(x.value, str) for x in k.value.keys):
+                            keys = [x.value for x in k.value.keys]
+                        elif k.arg == "extra" and isinstance(k.value, ast.Call) and isinstance(k.value.func, ast.Name) and k.value.func.id == "dict" and not k.value.args and all(kk.arg for kk in k.value.keywords):
+                            keys = [kk.arg for kk in k.value.keywords]
+                        bad = sorted(set(keys) & _LOGRECORD_ATTRS) if keys is not None else None
+                        rep.ob("C14.K8-logging-extra", "%s:%s" % (f.name, ast.unparse(n.func)), keys is not None and not bad,
+                               "logging call passes extra=%s; %s" % (ast.unparse(k.value)[:60], ("keys %s are attributes of every LogRecord: Logger.makeRecord raises KeyError when the record is created" % bad) if bad else "keys not readable as a literal" if keys is None else "keys are free"),
+                               W(f, n), key="C14.K8-logging-extra|%s" % f.name)
+    rep.stat("logging_calls_scanned_for_extra", n_log)
     for f in fns:
         rep.analysed(f)
     rep.ob("C14.perline-floor", "per-line closure", len(fns) >= 28, "functions reachable from the line loop: %d (floor 28)" % len(fns), "", nontrivial=False)
